@@ -97,8 +97,21 @@ def pScalar (c : Ctx) (S : Bool) (kp : List Str) (v : J) : J :=
     else c.scalar [[]] (.str s) S (reMatchesAny c.cfg.re kp)
   | v => c.scalar [[]] v S (reMatchesAny c.cfg.re kp)
 
+def sColl : Str := "coll".toList
+def sInto : Str := "into".toList
+
+/-- a stage whose argument table names a collection directly (`coll` / `into` typed Namespace):
+    its string form `{$out: "c"}` is a namespace (added by a `fix:`) -/
+def nsStage (m : MTable) : Bool := isTy? (lookup sColl m) .Namespace || isTy? (lookup sInto m) .Namespace
+
 def pValScalar (c : Ctx) (S : Bool) (kp : List Str) (k : Str) (op : Option Meta) (v : J) : J :=
   match op with
+  | some (.map m) =>
+    if c.cfg.ns && nsStage m then
+      match v with
+      | .str s => .str (c.H s)
+      | _ => c.genericScalar S (kp ++ [k]) v
+    else c.genericScalar S (kp ++ [k]) v
   | some (.ty .FieldName) =>
     if c.rfn then
       match v with
@@ -230,7 +243,7 @@ def SubVal (c : Ctx) (S : Bool) (k : Str) (nkp : List Str) (sk : Str) (sm : Opti
     | some (.ty .Namespace) => .arr xs
     | some (.ty .Exempt) => .arr xs
     | some (.ty .OperatorArray) => .arr (PList c S nkp xs)
-    | some (.ty .Pipeline) => .arr (A c S [] (c.selArr xs) nkp xs)
+    | some (.ty .Pipeline) => .arr (FacetStages c xs)          -- sub-pipeline: stage walker per stage (`fix:`)
     | _ => .arr (A c S [] (c.selArr xs) (nkp ++ [sk]) xs)
   | v => c.subValScalar S k nkp sk sm v
 
